@@ -332,7 +332,7 @@ func (c *Ctx) DecisionX(rule, key string, fn *ssa.Function, syms *Symbols, envs 
 	for _, env := range envs {
 		env := env
 		res := ssau.AbsWalk(fn, ssau.AbsEnvFunc(func(i *ssa.If, visit int) (bool, bool) {
-			return syms.evalCond(i.Cond, env, visit, i.Block().Comment)
+			return syms.evalCond(i.Cond, env, visit, blockComment(i))
 		}))
 		if res.Unknown != nil {
 			c.R.Undecided(rule, key, c.posOf(res.Unknown), fmt.Sprintf("%s: branch condition %s is not in the rule's atom table (valuation %s)", fname(fn), ssau.CondString(res.Unknown.Cond), env))
@@ -759,10 +759,45 @@ func (c *Ctx) c05Digest() {
 	}
 	n := 0
 	if f := c.fn("crypto", "", "Verify"); f != nil {
-		for _, call := range ssau.CallsIn(f, func(cm *ssa.CallCommon) bool {
+		isECDSA := func(cm *ssa.CallCommon) bool {
 			o := ssau.CalleeObj(cm)
 			return o != nil && o.Pkg() != nil && o.Pkg().Path() == "crypto/ecdsa" && (o.Name() == "Verify" || o.Name() == "VerifyASN1")
-		}) {
+		}
+		// Verify may hash the data and hand the digest to a digest-level verifier of the package (VerifyDigest):
+		// then that verifier passes its digest parameter to ecdsa.Verify and Verify passes the hash of the data
+		if len(ssau.CallsIn(f, isECDSA)) == 0 {
+			for _, b := range f.Blocks {
+				for _, in := range b.Instrs {
+					cl, ok := in.(*ssa.Call)
+					if !ok {
+						continue
+					}
+					h := cl.Call.StaticCallee()
+					if h == nil || h.Pkg != f.Pkg || len(h.Blocks) == 0 {
+						continue
+					}
+					for _, ec := range ssau.CallsIn(h, isECDSA) {
+						dig := ssau.Unwrap(ec.Common().Args[1])
+						for pi, prm := range h.Params {
+							if dig != ssa.Value(prm) || pi >= len(cl.Call.Args) {
+								continue
+							}
+							n++
+							contents, nh := hashedContents(f, cl.Call.Args[pi])
+							covered := false
+							for _, hv := range contents {
+								if contentFrom(hv, isParam("data")) {
+									covered = true
+								}
+							}
+							c.R.Check("K-digest", "crypto.Verify|digest=SHA256(data)", nh > 0 && covered, c.posOf(cl),
+								fmt.Sprintf("the digest handed to %s must be a SHA-256 over the parameter data (%d hash computations, data covered=%v)", h.Name(), nh, covered))
+						}
+					}
+				}
+			}
+		}
+		for _, call := range ssau.CallsIn(f, isECDSA) {
 			n++
 			a := call.Common().Args
 			contents, nh := hashedContents(f, a[1])
